@@ -241,4 +241,24 @@ def execGo (e : Env) (l : List ((DecOp × Info) × Nat)) (m : Memory) (acc : Lis
 def execTagged (e : Env) (init : Memory) (ops : List DecOp) (infos : List Info) : List String :=
   execGo e (ops.zip infos).zipIdx init []
 
+/-! ## Constant operands addressed in place
+
+Weights, scales and constant feature maps that an operation reads *directly* from the constants
+region are never written by the stream, so the tagged memory says nothing about them. What can
+still go wrong is the address: the operation must name the bytes of *its own* constant. -/
+
+def constRangeProblems (e : Env) (idx : Nat) (what : String) (rs : List AddrRange) (srcs : List Int) : List String :=
+  (if rs.length ≠ srcs.length then [s!"op {idx} {what}: {rs.length} ranges decoded, {srcs.length} expected"] else []) ++
+  (rs.zip srcs).flatMap fun (r, src) =>
+    if r.region = e.constRegion ∧ src ≥ 0 ∧ (r.addr : Int) ≠ src then
+      [s!"op {idx} {what}: reads constants at {r.addr} but its own data is at {src}"]
+    else []
+
+def constSourceProblems (e : Env) (ops : List DecOp) (infos : List Info) : List String :=
+  (ops.zip infos).zipIdx.flatMap fun ((op, info), idx) =>
+    match op, info with
+    | .block b, .block i =>
+      constRangeProblems e idx "WEIGHTS" b.weights i.wsrc ++ constRangeProblems e idx "SCALES" b.scales i.ssrc
+    | _, _ => []
+
 end VelaVerif.Mem
